@@ -13,7 +13,7 @@ RULE = ("random parser-produced circuits (lets, aliases incl. alias-of-alias, ma
         "meaning, and parse_jaqal_string(expand_macro / expand_let / expand_let_map [+override_dict]) equals the passes applied to the plain "
         "parse; non-trivial = program has a macro call or subcircuit or let")
 BOUND = "n <= 4, depth <= 3, pass sequences (without repetition, then one repetition of each pass that ran) of length <= 4"
-BUDGET_S = {"quick": 45, "thorough": 900}
+BUDGET_S = {"quick": 45, "thorough": 400}
 
 
 def cases(tier, rng):
